@@ -713,6 +713,9 @@ func (v *FV) applyContract(fr *Frame, st *State, con *Contract, callee *ssa.Func
 	if i := strings.LastIndex(short, "/"); i >= 0 {
 		short = short[i+1:]
 	}
+	if self, ok := vars["self"]; ok && self.Ty != nil && v.isRefLike(self.Ty) && !con.Extern {
+		v.oblige("nil", "recv."+mangle(short), pos, "receiver of "+short+" is not nil", st.reach, fmt.Sprintf("(not (= %s 0))", self.T))
+	}
 	env := &ExprEnv{v: v, vars: vars, snap: st.snap, pkg: pkg, reach: st.reach, what: "contract of " + name}
 	for i, c := range con.Requires {
 		t, err := env.EvalBool(c.Text)
